@@ -11,7 +11,7 @@ from __future__ import annotations
 import numpy as np
 
 from ..model import DSnap, Snap
-from ..attach import FrameSnap, StockSnap
+from ..attach import FrameSnap, PlotterSnap, StockSnap, SystemSnap
 from .common import exc_text
 
 M13 = "shape-invariant"
@@ -72,7 +72,7 @@ def same_now(fd, snap, obj):
             return DSnap(obj).same(snap)
         if isinstance(snap, StockSnap):
             return StockSnap(obj).same(snap)
-        if isinstance(snap, FrameSnap):
+        if isinstance(snap, (FrameSnap, SystemSnap, PlotterSnap)):
             return snap.same_as(obj)
         if isinstance(snap, np.ndarray):
             return isinstance(obj, np.ndarray) and obj.shape == snap.shape and obj.dtype == snap.dtype and obj.tobytes() == snap.tobytes()
@@ -189,6 +189,22 @@ def register(hub, props=("C13", "C15"), pool=None):
                 rec.event(M13R, sig=f"setitem...|{xs.shape}|{vals.shape}", cls="whole-array-assign|" + ("wrong-shape" if bad else "right-shape"))
                 if bad and call.exc is None:
                     rec.violation(M13R, "whole-array-assignment-accepted-ndarray-of-other-shape", {"dims_shape": list(xs.shape), "values_shape": list(vals.shape)}, prop="C13")
+        elif cls in ("FixedLifetime", "NormalLifetime", "FoldedNormalLifetime", "LogNormalLifetime", "WeibullLifetime") and short in ("__init__", "set_prms"):
+            # a parameter array over a dimension the model does not have cannot be cast by label: must be rejected
+            if short == "__init__":
+                dims = call.kwargs.get("dims")
+            else:
+                dims = getattr(call.args[0], "dims", None)
+            if not isinstance(dims, fd.DimensionSet):
+                return
+            letters = set(d.letter for d in dims.dim_list)
+            prms = [v for k, v in call.kwargs.items() if isinstance(v, fd.FlodymArray)] + [a for a in call.args[1:] if isinstance(a, fd.FlodymArray)]
+            if not prms:
+                return
+            foreign = [p for p in prms if any(l not in letters for l in p.dims.letters)]
+            rec.event(M13R, sig=f"{cls}.{short}|{'foreign' if foreign else 'ok'}", cls=f"lifetime-params|{'foreign-dimension' if foreign else 'well-formed'}")
+            if foreign and call.exc is None:
+                rec.violation(M13R, "lifetime-model-accepted-parameter-with-foreign-dimension", {"class": cls, "op": short, "model_dims": sorted(letters), "param_dims": list(foreign[0].dims.letters)}, prop="C13")
         elif short == "__init__" and cls in ("SimpleFlowDrivenStock", "InflowDrivenDSM", "StockDrivenDSM"):
             dims = call.kwargs.get("dims")
             if not isinstance(dims, fd.DimensionSet):
